@@ -14,6 +14,9 @@ HARNESSES = [
     bounds='every token of <= 5 (7) bytes over {# @ 0-9 x blank , )}; append offset 0..10^6, two registered ids 0..2*10^6 (symbolic)',
     samples=[{'tok': '#12,', 'add': 1000, 'id0': 12, 'id1': 1012}, {'tok': ' #7)', 'add': 0, 'id0': 7, 'id1': 9}, {'tok': '@3,', 'add': 5, 'id0': 8, 'id1': 1}, {'tok': '#x,', 'add': 0, 'id0': 1, 'id1': 2}, {'tok': ',', 'add': 0, 'id0': 1, 'id1': 2}, {'tok': '#5', 'add': 2, 'id0': 1, 'id1': 2}],
     out_of_claim='SELECT and complex-part reference paths, CreateInstance id shifting in pass 1, ids above 10^6', **REF),
+  # aggr_refs (harness/C14/h_aggr.c + wrap_aggr.cc: EntityAggregate::ReadValue -> EntityNode::STEPread -> ReadEntityRef + EntityValidLevel with symbolic offset):
+  # translation-validated (the oracle agrees with the real build on the samples) but the witness twin's symbolic execution did not finish in 15 min / 12 GB
+  # (ostringstream/AttrTypeName text per element); NOT registered.
   H('file_id_increment', 'irc', 'harness/C14/h_incr.c', wrapper='harness/C14/wrap_incr.cc', repo_srcs=['src/cleditor/STEPfile.inline.cc', 'src/clstepcore/sdai.cc', 'src/cldai/sdaiEnum.cc', 'src/cldai/sdaiString.cc', 'src/clutils/Str.cc'], irc_extra_cc=['harness/common/errordesc_stub.cc'],
     native_lib=['src/clstepcore', 'src/clutils', 'src/cldai', 'src/cleditor'], models=['lib/cmodels/cxx_rt.c', 'lib/cmodels/printf_null.c'],
     defs={'VSTR_CAP': 8, 'VSTREAM_CAP': 8, 'VOSTREAM_CAP': 8, 'VCONT_CAP': 4}, unwind=4, object_bits=10,
